@@ -147,7 +147,13 @@ fn cfg_sections(rng: &mut Rng, e: &Engine) -> Vec<CfgSection> {
         let n = rng.below(4);
         v.push(CfgSection::Monitors((0..n).map(|_| rng.below(4) as u8).collect()));
     }
-    if mask & 8 != 0 {
+    if mask & 8 != 0 && rng.chance(1, 4) {
+        // repeat every current native value and rotate only the reward collector (takes effect at quiescent points)
+        let vals: Vec<u8> = e.m.cfg.validators.iter().filter_map(|x| e.a.vals.iter().position(|y| y == x).map(|i| i as u8)).collect();
+        let st = e.a.nstakers.iter().position(|x| x.eq_ignore_ascii_case(&e.m.cfg.staker)).unwrap_or(0) as u8;
+        let col = e.a.ncollectors.iter().position(|x| x.eq_ignore_ascii_case(&e.m.cfg.collector)).unwrap_or(0) as u8;
+        v.push(CfgSection::Native { unbonding: e.m.cfg.unbonding, validators: vals, staker: st, collector: col.wrapping_add(1 + rng.below(2) as u8), upper: false });
+    } else if mask & 8 != 0 {
         let n = rng.below(4);
         let unb = if rng.chance(1, 6) { edge } else { *rng.pick(&[0u64, 1, 120, 120, 86_400, 86_400, 21 * 86_400, 21 * 86_400, u64::MAX, u64::MAX - 1_000_000]) };
         v.push(CfgSection::Native { unbonding: unb, validators: (0..n).map(|_| rng.below(5) as u8).collect(), staker: rng.below(3) as u8, collector: rng.below(3) as u8, upper: rng.chance(1, 6) });
